@@ -526,5 +526,10 @@ func (p *pathRun) pointConstLemma(a, k *smt.Term) {
 		p.counters[key] = 1
 		same := c.And(p.smartEq(d1, q.d), c.Eq(t1, q.tau))
 		p.axiom("point-injective-const", c.Eq(c.And(c.Eq(X1, c.IntC(q.x)), c.Eq(Y1, c.IntC(q.y))), same))
+		if cname == "secp256k1" && isX && q.x.Sign() != 0 {
+			// same x coordinate iff the same or the opposite point
+			neg := p.congruent(c.Add(d1, q.d), c.IntC64(0), c.IntC(co.N))
+			p.axiom("point-x-pm-const", c.Eq(c.Eq(X1, c.IntC(q.x)), c.Or(same, neg)))
+		}
 	}
 }
